@@ -21,6 +21,8 @@ type cfg struct {
 	// logo: the image carries the boot logo and a plausible header at the start of every
 	// 256 KiB block, as multi-game cartridges do (ROM contents must play no part in banking)
 	logo bool
+	// tail: the last quarter of the image is erased flash (all FF), as in padded images
+	tail bool
 }
 
 var bootLogo = []byte{0xce, 0xed, 0x66, 0x66, 0xcc, 0x0d, 0x00, 0x0b, 0x03, 0x73, 0x00, 0x83, 0x00, 0x0c, 0x00, 0x0d, 0x00, 0x08, 0x11, 0x1f, 0x88, 0x89, 0x00, 0x0e,
@@ -51,6 +53,10 @@ func image(cart, romCode, ramCode uint8, logo ...bool) []byte {
 	if withLogo {
 		key |= 1 << 24
 	}
+	withTail := len(logo) > 1 && logo[1]
+	if withTail {
+		key |= 1 << 25
+	}
 	if img, ok := imgCache[key]; ok {
 		return img
 	}
@@ -60,6 +66,11 @@ func image(cart, romCode, ramCode uint8, logo ...bool) []byte {
 			copy(img[base+0x104:], bootLogo)
 			copy(img[base+0x134:], []byte("GAME"))
 			img[base+0x147], img[base+0x148], img[base+0x149] = cart, romCode, ramCode
+		}
+	}
+	if withTail {
+		for a := len(img) - len(img)/4; a < len(img); a++ {
+			img[a] = 0xff
 		}
 	}
 	imgCache = map[uint32][]byte{key: img} // keep only one image in memory
@@ -91,7 +102,7 @@ func (w *world) toReset() {
 }
 
 func newWorld(c *rig.Ctx, cf cfg, ramCode uint8) *world {
-	m, err := rig.New(image(cf.cart, cf.romCode, ramCode, cf.logo), rig.Opts{})
+	m, err := rig.New(image(cf.cart, cf.romCode, ramCode, cf.logo, cf.tail), rig.Opts{})
 	if err != nil {
 		c.Violate(fmt.Sprintf("cart%02X-rom%d-load", cf.cart, cf.romCode), fmt.Sprintf("cartridge type %02X with ROM size code %d and RAM size code %d does not load: %v", cf.cart, cf.romCode, ramCode, err), nil)
 		return nil
@@ -100,8 +111,8 @@ func newWorld(c *rig.Ctx, cf cfg, ramCode uint8) *world {
 }
 
 func (w *world) expectByte(page, off int) byte {
-	if w.cf.logo {
-		return image(w.cf.cart, w.cf.romCode, w.ramCode, true)[page*0x4000+off]
+	if w.cf.logo || w.cf.tail {
+		return image(w.cf.cart, w.cf.romCode, w.ramCode, w.cf.logo, w.cf.tail)[page*0x4000+off]
 	}
 	return rig.ROMByte(page, off, w.cf.cart, w.cf.romCode, w.ramCode)
 }
@@ -138,6 +149,12 @@ func (w *world) check(what string) bool {
 		w.m.Mem.Write(a, uint8(w.checks))
 		w.ref.Write(a, uint8(w.checks))
 		w.c.Count("ram_accesses_before_rom_reads", 1)
+	}
+	if w.checks%5 == 2 {
+		// the host saves cartridge RAM (the battery file) whenever it likes: not a guest action,
+		// and nothing a ROM access may notice
+		_ = w.m.Mem.DumpRAM()
+		w.c.Count("host_ram_dumps_before_rom_reads", 1)
 	}
 	lo, hi := w.ref.LowPage(), w.ref.HighPage()
 	// "writes never change ROM contents": the very bytes that were stored to most recently
@@ -234,7 +251,7 @@ func (w *world) verifyAllPages(quick bool) {
 			stride = 61
 		}
 		for off := 0; off < nOff; off += stride {
-			if hi == 0 && off >= 0x147 && off <= 0x149 && !w.cf.logo {
+			if hi == 0 && off >= 0x147 && off <= 0x149 && !w.cf.logo && !w.cf.tail {
 				continue
 			}
 			if got, want := w.m.Mem.Read(uint16(0x4000+off)), w.expectByte(hi, off); got != want {
@@ -253,15 +270,18 @@ func run(c *rig.Ctx) {
 	for _, cart := range []uint8{0x00, 0x01, 0x02, 0x03, 0x05, 0x06, 0x0f, 0x10, 0x11, 0x12, 0x13, 0x19, 0x1a, 0x1b, 0x1c, 0x1d, 0x1e} {
 		k, _ := ref.KindOf(cart)
 		for code := uint8(0); code <= ref.MaxROMCode(k); code++ {
-			cfgs = append(cfgs, cfg{cart, code, false})
+			cfgs = append(cfgs, cfg{cart, code, false, false})
+			if code >= 2 && code%2 == cart%2 {
+				cfgs = append(cfgs, cfg{cart, code, false, true})
+			}
 			if code >= 4 {
-				cfgs = append(cfgs, cfg{cart, code, true})
+				cfgs = append(cfgs, cfg{cart, code, true, false})
 			}
 		}
 	}
 	// a ROM-only cartridge whose image is larger than 32 KiB has no registers either: the first
 	// two banks stay where they are whatever is stored
-	cfgs = append(cfgs, cfg{0x00, 1, false}, cfg{0x00, 2, false}, cfg{0x00, 3, true})
+	cfgs = append(cfgs, cfg{0x00, 1, false, false}, cfg{0x00, 2, false, true}, cfg{0x00, 3, true, false})
 	// largest images last within a shard keeps peak memory low
 	c.Part("configs", int64(len(cfgs)), func(i int64, r *rig.Rng) {
 		cf := cfgs[i]
@@ -411,7 +431,7 @@ func run(c *rig.Ctx) {
 
 // newWorldQuiet is newWorld for configurations already known to load.
 func newWorldQuiet(c *rig.Ctx, cf cfg, ramCode uint8) *world {
-	m := rig.MustNew(image(cf.cart, cf.romCode, ramCode, cf.logo), rig.Opts{})
+	m := rig.MustNew(image(cf.cart, cf.romCode, ramCode, cf.logo, cf.tail), rig.Opts{})
 	return &world{c: c, cf: cf, ramCode: ramCode, m: m, ref: ref.NewMBC(cf.cart, cf.romCode, ramCode)}
 }
 
